@@ -676,6 +676,6 @@ add("C05", "benign: guard written with str.isdigit", "sqlglot/generators/hive.py
 add("C05", "revert: _parse_join returns a join although the peeked APPLY was not consumed", P,
     "        if not skip_join_token and not join and self._index == index:\n            # APPLY was only peeked: if the table parser didn't consume it, there's no join here\n            return None\n",
     "", "C05.a")
-add("C05", "consuming match turned into a peek through the positional advance flag", P,
-    "        while self._match(TokenType.ON):\n            if not self._match_set((TokenType.DELETE, TokenType.UPDATE)):",
-    "        while self._match(TokenType.ON, False):\n            if not self._match_set((TokenType.DELETE, TokenType.UPDATE)):", "C05.a")
+add("C05", "separator match turned into a peek through the positional advance flag", P,
+    "        while self._match(sep):\n            if isinstance(parse_result, exp.Expr):",
+    "        while self._match(sep, False):\n            if isinstance(parse_result, exp.Expr):", "C05.a")
